@@ -6,7 +6,8 @@ import HeartwoodModel.Lemmas.CobCache
 Property theorems about `Model/CobCache.lean`.
 
 1. `cache_refines_store…`: after any history of creations, updates, removals, fetched updates, `write`
-   and `write_all`, every cache row is the JSON encoding of the object the repository evaluates to.
+   and `write_all`, every cache row is the JSON encoding of the object the repository evaluates to;
+   `write_all_restores`: `Cache::write_all` repairs any earlier divergence.
 2. `get_agree`, `list_agree`, `list_by_status_agree`, `counts_agree`, `find_by_revision_agree` (patches) and
    `issue_get_agree`, `issue_list_agree`, `issue_list_by_status_agree`, `issue_counts_agree`: each cached
    query (SQL over the JSON rows) equals the direct query, for *every* encoding `c` satisfying the stated
@@ -36,9 +37,11 @@ def FetchSound : Op α → Prop
   | .fetched changes refs => ∀ c ∈ changes, ∃ r ∈ refs, r.id = c.1 ∧ r.skipped = false
   | _ => True
 
-/-- A removal after which no reference of the object remains in the repository. -/
+/-- A removal after which no reference of the object remains in the repository; and no change of the
+repository behind the cache's back (`external` is not one of the property's operations). -/
 def RemoveLast : Op α → Prop
   | .remove _ after => after = none
+  | .external _ => False
   | _ => True
 
 theorem step_preserves_inv (enc : α → Json) {s : Store α} (h : Inv enc s) (op : Op α)
@@ -68,6 +71,7 @@ theorem step_preserves_inv (enc : α → Json) {s : Store α} (h : Inv enc s) (o
       intro c hc hck
       obtain ⟨r, hr1, hr2, hr3⟩ := hf c hc
       exact hex ⟨r, hr1, hr2.trans hck, hr3⟩
+  | external changes => exact absurd hr (by simp [RemoveLast])
   | rewrite id =>
     simp only [Store.step]
     cases hl : s.truth.lookup id with
@@ -99,6 +103,45 @@ theorem cache_refines_store_partial (enc : α → Json) (ops : List (Op α))
     Table.Sorted (Store.run enc Store.empty ops).truth :=
   let h := run_preserves_inv enc ops (inv_empty enc) hf hr
   ⟨h.cache_eq, h.truth_sorted⟩
+
+/-- Every operation keeps the truth table sorted (no hypothesis on the operation). -/
+private theorem step_truth_sorted (enc : α → Json) {s : Store α} (h : Table.Sorted s.truth) (op : Op α) :
+    Table.Sorted (s.step enc op).truth := by
+  cases op with
+  | write id after => exact Table.sorted_upsert h
+  | remove id after => exact Table.sorted_set h
+  | fetched changes refs => exact sorted_applyChanges changes h
+  | external changes => exact sorted_applyChanges changes h
+  | rewrite id =>
+    simp only [Store.step]
+    cases s.truth.lookup id <;> exact h
+  | rewriteAll => exact h
+
+private theorem run_truth_sorted (enc : α → Json) (ops : List (Op α)) {s : Store α}
+    (h : Table.Sorted s.truth) : Table.Sorted (Store.run enc s ops).truth := by
+  induction ops generalizing s with
+  | nil => exact h
+  | cons op ops ih => exact ih (step_truth_sorted enc h op)
+
+private theorem run_append (enc : α → Json) (xs ys : List (Op α)) (s : Store α) :
+    Store.run enc s (xs ++ ys) = Store.run enc (Store.run enc s xs) ys := by
+  induction xs generalizing s with
+  | nil => rfl
+  | cons x xs ih => exact ih _
+
+/-- `write_all` repairs ANY divergence: whatever happened before it (removals that left the object alive —
+the known finding —, changes of the repository behind the cache's back), after `Cache::write_all` and any
+further history of sound operations the cache is again exactly the encoding of the store. -/
+theorem write_all_restores (enc : α → Json) (pre post : List (Op α))
+    (hf : ∀ op ∈ post, FetchSound op) (hr : ∀ op ∈ post, RemoveLast op) :
+    (Store.run enc Store.empty (pre ++ Op.rewriteAll :: post)).cache =
+      (Store.run enc Store.empty (pre ++ Op.rewriteAll :: post)).truth.image enc := by
+  rw [run_append]
+  have hs : Table.Sorted (Store.run enc (Store.empty : Store α) pre).truth :=
+    run_truth_sorted enc pre Table.sorted_nil
+  have hinv : Inv enc ((Store.run enc (Store.empty : Store α) pre).step enc .rewriteAll) :=
+    ⟨hs, Table.sorted_image enc hs, fun k => Table.lookup_image enc k _⟩
+  exact (run_preserves_inv enc post hinv hf hr).cache_eq
 
 end Refinement
 
@@ -137,6 +180,17 @@ example : ∃ ops : List (Op Patch), ops.length = 6 ∧ (∀ op ∈ ops, FetchSo
     intro op hop
     simp only [List.mem_cons, List.mem_nil_iff, or_false] at hop
     rcases hop with rfl | rfl | rfl | rfl | rfl | rfl <;> simp [RemoveLast]⟩
+
+/-- Non-vacuity of `write_all_restores`: the divergent prefix of `cache_refines_store_counterexample`
+plus a change behind the cache's back, then `write_all`, then a sound suffix. -/
+example :
+    let ops : List (Op Patch) :=
+      [.write "p1" (samplePatch .open), .remove "p1" (some (samplePatch .open)),
+       .external [("p2", some (samplePatch .draft))]] ++ Op.rewriteAll :: [.write "p3" (samplePatch .merged)]
+    (Store.run encPatch Store.empty ops).cache = (Store.run encPatch Store.empty ops).truth.image encPatch ∧
+    (Store.run encPatch Store.empty ops).truth.length = 3 :=
+  ⟨write_all_restores encPatch _ _ (by intro op hop; simp at hop; subst hop; trivial)
+    (by intro op hop; simp at hop; subst hop; trivial), by decide⟩
 
 /-! ## 2. Patch queries -/
 
